@@ -13,7 +13,7 @@ int main() {
         const auto labels = in.bytes();
         const i64 thr = in.next(), mn = in.next(), tg = in.next();
         // implementation-only inputs: sample, seed, self, chunk, registered contacts (id, expires in s from now, load fields)
-        const i64 sample = in.next(); const i64 seed = in.next();
+        const i64 sample = in.next(); const i64 seed = in.next(); const i64 total_shares = in.next();
         const PeerId self = in.id32(); const ChunkId chunk = in.id32();
         Config cfg{};
         cfg.swarm_min_providers = static_cast<std::uint16_t>(mn);
@@ -37,6 +37,7 @@ int main() {
         hv::g_now_ns += advance * 1'000'000'000LL;
         protocol::Manifest m{};
         m.chunk_id = chunk; m.threshold = static_cast<std::uint8_t>(thr);
+        m.total_shares = static_cast<std::uint8_t>(total_shares);   // independent byte on the wire: need not equal shards.size()
         for (auto lb : labels) { protocol::KeyShard s{}; s.index = lb; m.shards.push_back(s); }
         SwarmCoordinator coord(cfg);
         const auto plan = coord.compute_plan(chunk, m, table, self, loads);
